@@ -334,16 +334,8 @@ func (ex *Exec) cellValue(fr *Frame, st *State, cl *Clause, p ClauseParam) Value
 		return nil
 	case "iter":
 		li := ex.V.loopOf(fr.fn, cl.Loop)
-		for b := range li.body {
-			for _, in := range b.Instrs {
-				if a, ok := in.(*ssa.Alloc); ok && a.Comment == "rangeindex" {
-					if v, ok := st.cells[a]; ok {
-						return VBV{Add(v.(VBV).T, C64(1))}
-					}
-				}
-			}
-		}
-		// the rangeindex cell is allocated just before the loop header
+		// the rangeindex cell is allocated just before the loop header (the cells of nested range
+		// loops are allocated inside this loop's body and must not be mistaken for it)
 		for _, pr := range li.header.Preds {
 			if li.body[pr] {
 				continue
